@@ -14,6 +14,11 @@ mod bencode;
 mod http_sys;
 mod ws_sys;
 mod export_crash;
+mod lattice;
+mod parsers;
+
+#[global_allocator]
+static GLOBAL: aquatic_verif_rt::alloc::CountingAlloc = aquatic_verif_rt::alloc::CountingAlloc;
 
 use crate::core::*;
 use std::collections::BTreeMap;
@@ -52,6 +57,8 @@ macro_rules! dispatch {
             "http_sys" => $f::<http_sys::HttpSys>($($args),*),
             "ws_sys" => $f::<ws_sys::WsSys>($($args),*),
             "export_crash" => $f::<export_crash::ExportCrash>($($args),*),
+            "lattice" => $f::<lattice::Lattice>($($args),*),
+            "parsers" => $f::<parsers::Parsers>($($args),*),
             other => {
                 eprintln!("HARNESS-ERROR: unknown harness {:?}", other);
                 std::process::exit(2);
